@@ -772,7 +772,31 @@ func c24ConfigGen() *rapid.Generator[acl.Config] {
 			cfg.DefaultPolicy = "allow"
 		}
 		for _, name := range []string{"alice", "bob", "carol", "anonymous"} {
-			switch rapid.IntRange(0, 7).Draw(t, "entry-"+name) {
+			switch rapid.IntRange(-2, 7).Draw(t, "entry-"+name) {
+			case -2: // broad allow, specific denies (also the natural shape under default allow)
+				e := acl.PrincipalRules{Name: name}
+				if rapid.IntRange(0, 3).Draw(t, "broadAllow") > 0 {
+					e.Allow = []acl.Rule{{Action: rapid.SampledFrom([]acl.Action{acl.ActionAny, acl.ActionFetch, acl.ActionProduce, acl.ActionGroupWrite, acl.ActionGroupRead}).Draw(t, "broadAction"), Resource: acl.ResourceAny, Name: "*"}}
+				}
+				for i, n := 0, rapid.IntRange(1, 2).Draw(t, "nDeny"); i < n; i++ {
+					d := acl.Rule{}
+					d.Action = rapid.SampledFrom([]acl.Action{acl.ActionFetch, acl.ActionFetch, acl.ActionProduce, acl.ActionGroupWrite, acl.ActionGroupRead, acl.ActionGroupAdmin, acl.ActionAny}).Draw(t, "denyAction")
+					if rapid.Bool().Draw(t, "denyTopic") {
+						d.Resource, d.Name = acl.ResourceTopic, rapid.SampledFrom([]string{"orders", "orders", "payments", "newtopic"}).Draw(t, "denyTopicName")
+					} else {
+						d.Resource, d.Name = acl.ResourceGroup, rapid.SampledFrom([]string{"g1", "g1", "g2"}).Draw(t, "denyGroupName")
+					}
+					if rapid.IntRange(0, 4).Draw(t, "denyAnyResource") == 0 {
+						d.Resource = acl.ResourceAny
+					}
+					e.Deny = append(e.Deny, d)
+				}
+				cfg.Principals = append(cfg.Principals, e)
+			case -1: // allowed on exactly one existing topic
+				cfg.Principals = append(cfg.Principals, acl.PrincipalRules{Name: name, Allow: []acl.Rule{{
+					Action:   rapid.SampledFrom([]acl.Action{acl.ActionProduce, acl.ActionFetch, acl.ActionAny}).Draw(t, "oneTopicAction"),
+					Resource: acl.ResourceTopic,
+					Name:     rapid.SampledFrom([]string{"orders", "payments"}).Draw(t, "oneTopicName")}}})
 			case 0: // not listed
 			case 1: // listed, no permission
 				cfg.Principals = append(cfg.Principals, acl.PrincipalRules{Name: name, Deny: rapid.SliceOfN(c24RuleGen(), 0, 1).Draw(t, "deny")})
@@ -829,10 +853,27 @@ func c24Tier(cfg acl.Config, principal string, api *c24API, r c24Req) string {
 	if denyAll {
 		return "T1"
 	}
-	if cfg.DefaultPolicy == "deny" {
-		if e == nil || len(e.Allow) == 0 {
-			return "T1"
+	if cfg.DefaultPolicy == "deny" && (e == nil || len(e.Allow) == 0) {
+		return "T1"
+	}
+	// T3d: every topic (group) the request touches is covered by an explicit deny rule for
+	// the action the API needs -- deny overrides whatever else is allowed (C23)
+	if kind := c24Kind(api.key); kind != "" && e != nil {
+		names := r.Topics
+		if kind == acl.ResourceGroup {
+			names = r.Groups
 		}
+		all := len(names) > 0
+		for _, n := range names {
+			if !c24DeniedBy(e.Deny, api.action, kind, n) {
+				all = false
+			}
+		}
+		if all {
+			return "T3d"
+		}
+	}
+	if cfg.DefaultPolicy == "deny" {
 		// T2: only exactly-named topic/group rules, none naming what the request touches
 		touched := map[string]bool{}
 		if api.usesTopics {
@@ -880,15 +921,131 @@ func c24Tier(cfg acl.Config, principal string, api *c24API, r c24Req) string {
 	return ""
 }
 
-func c24ReqGen(w *c24World, advertised map[int16][2]int16) *rapid.Generator[c24Req] {
+// c24Kind: the resource kind an API is unambiguously authorized on ("" = not used for T3d).
+func c24Kind(key int16) acl.Resource {
+	switch key {
+	case protocol.APIKeyProduce, protocol.APIKeyFetch, protocol.APIKeyListOffsets, protocol.APIKeyOffsetForLeaderEpoch:
+		return acl.ResourceTopic
+	case protocol.APIKeyOffsetCommit, protocol.APIKeyOffsetFetch, protocol.APIKeyJoinGroup, protocol.APIKeyHeartbeat,
+		protocol.APIKeyLeaveGroup, protocol.APIKeySyncGroup, protocol.APIKeyDescribeGroups, protocol.APIKeyDeleteGroups:
+		return acl.ResourceGroup
+	}
+	return ""
+}
+
+func c24NameCovers(ruleName, name string) bool {
+	if ruleName == "*" || ruleName == name {
+		return ruleName != ""
+	}
+	if strings.Count(ruleName, "*") == 1 && strings.HasSuffix(ruleName, "*") {
+		return strings.HasPrefix(name, strings.TrimSuffix(ruleName, "*"))
+	}
+	return false
+}
+
+func c24DeniedBy(deny []acl.Rule, action acl.Action, kind acl.Resource, name string) bool {
+	for _, d := range deny {
+		if (d.Action == action || d.Action == acl.ActionAny) && (d.Resource == kind || d.Resource == acl.ResourceAny) && c24NameCovers(d.Name, name) {
+			return true
+		}
+	}
+	return false
+}
+
+// c24NoClaimOn: under default deny, could ANY reading of the principal's allow rules concern
+// topic `name`? false only when every rule is an exactly-named topic/group rule for another
+// name (per-name T2) or the principal has no permission at all.
+func c24NoClaimOn(cfg acl.Config, principal, name string) bool {
+	if principal == "" {
+		principal = "anonymous"
+	}
+	if cfg.DefaultPolicy != "deny" {
+		return false
+	}
+	e := c24Entry(cfg, principal)
+	if e == nil || len(e.Allow) == 0 {
+		return true
+	}
+	for _, a := range e.Allow {
+		if (a.Resource != acl.ResourceTopic && a.Resource != acl.ResourceGroup) || strings.Contains(a.Name, "*") || a.Name == "" || a.Name == name {
+			return false
+		}
+	}
+	return true
+}
+
+type c24Aim struct {
+	principal string
+	key       int16
+	topics    []string
+	groups    []string
+	byID      bool
+}
+
+// c24Aims derives requests that go straight at a rule of the generated ACL: an API whose
+// action/kind an explicit deny rule covers, naming exactly the denied topic/group; and
+// Metadata requests mixing a topic the principal is allowed on with missing topics it has
+// no claim on, in both orders.
+func c24Aims(cfg acl.Config) []c24Aim {
+	var aims []c24Aim
+	inTopics := func(n string) bool { return n == "orders" || n == "payments" || n == "newtopic" || n == "ord" }
+	inGroups := func(n string) bool { return n == "g1" || n == "g2" || n == "newgroup" }
+	for _, e := range cfg.Principals {
+		principal := e.Name
+		if principal == "anonymous" {
+			principal = ""
+		}
+		for _, d := range e.Deny {
+			for _, api := range c24APIs {
+				kind := c24Kind(api.key)
+				if kind == "" || (d.Action != api.action && d.Action != acl.ActionAny) || (d.Resource != kind && d.Resource != acl.ResourceAny) {
+					continue
+				}
+				if kind == acl.ResourceTopic && inTopics(d.Name) {
+					aims = append(aims, c24Aim{principal: principal, key: api.key, topics: []string{d.Name}, byID: api.key == protocol.APIKeyFetch})
+				}
+				if kind == acl.ResourceGroup && inGroups(d.Name) {
+					aims = append(aims, c24Aim{principal: principal, key: api.key, groups: []string{d.Name}})
+				}
+			}
+		}
+		for _, a := range e.Allow {
+			if a.Resource != acl.ResourceTopic || !inTopics(a.Name) {
+				continue
+			}
+			for _, other := range c24Topics {
+				if other != a.Name && c24NoClaimOn(cfg, e.Name, other) {
+					aims = append(aims, c24Aim{principal: principal, key: protocol.APIKeyMetadata, topics: []string{a.Name, other}})
+					aims = append(aims, c24Aim{principal: principal, key: protocol.APIKeyMetadata, topics: []string{other, a.Name}})
+				}
+			}
+		}
+	}
+	return aims
+}
+
+func c24ReqGen(w *c24World, cfg acl.Config, advertised map[int16][2]int16) *rapid.Generator[c24Req] {
 	var apis []c24API
 	for _, a := range c24APIs {
 		if _, ok := advertised[a.key]; ok {
 			apis = append(apis, a)
 		}
 	}
+	var aims []c24Aim
+	for _, am := range c24Aims(cfg) {
+		if _, ok := advertised[am.key]; ok {
+			aims = append(aims, am)
+		}
+	}
 	return rapid.Custom(func(t *rapid.T) c24Req {
+		var aim *c24Aim
+		if len(aims) > 0 && rapid.IntRange(0, 2).Draw(t, "aimed") == 0 {
+			aim = &aims[rapid.IntRange(0, len(aims)-1).Draw(t, "aim")]
+		}
 		a := rapid.SampledFrom(apis).Draw(t, "api")
+		if aim != nil {
+			a = *c24APIByKey(aim.key)
+		}
 		lo, hi := a.minV, a.maxV
 		if adv := advertised[a.key]; true {
 			if adv[0] > lo {
@@ -921,6 +1078,19 @@ func c24ReqGen(w *c24World, advertised map[int16][2]int16) *rapid.Generator[c24R
 		r.Validate = rapid.IntRange(0, 4).Draw(t, "validateOnly") == 0
 		if a.key != protocol.APIKeyProduce {
 			r.Acks = 0
+		}
+		if aim != nil {
+			r.Principal = aim.principal
+			if aim.topics != nil {
+				r.Topics = append([]string(nil), aim.topics...)
+			}
+			if aim.groups != nil {
+				r.Groups = append([]string(nil), aim.groups...)
+			}
+			r.AllTopics = false
+			if aim.byID && rapid.Bool().Draw(t, "aimByTopicID") {
+				r.Version, r.ByID = hi, true // highest advertised fetch version addresses topics by id
+			}
 		}
 		return r
 	})
@@ -972,7 +1142,28 @@ func c24Exec(w *c24World, cfg acl.Config, r c24Req, st *vfkit.Stats, known bool)
 	}
 	if tier == "" {
 		st.Class("authorized-or-undecided:" + api.name)
+		// Metadata naming several topics: whatever the principal may do with the others, a
+		// missing topic it has no claim on at all must not come into existence
+		var noClaim []string
+		if api.key == protocol.APIKeyMetadata && !r.AllTopics {
+			for _, t := range r.Topics {
+				if !exists(t) && c24NoClaimOn(cfg, r.Principal, t) {
+					noClaim = append(noClaim, t)
+				}
+			}
+		}
 		_, _ = w.call(principal, r.Key, r.Version, req)
+		for _, t := range noClaim {
+			if exists(t) {
+				return fmt.Sprintf("Metadata %v from %q CREATED topic %q although no rule of the principal concerns it (default deny)", r.Topics, r.Principal, t), "T2-name", true
+			}
+		}
+		if len(noClaim) > 0 {
+			st.Class("metadata-mixing-claimed-and-unclaimed-missing-topics")
+			if w.h.autoCreateTopics {
+				return "", "T2-name", true
+			}
+		}
 		return "", tier, false
 	}
 	st.Class("unauthorized-" + tier + ":" + api.name)
@@ -1086,7 +1277,7 @@ func TestVF_C24_Sequences(t *testing.T) {
 		w.h.autoCreateTopics = rapid.IntRange(0, 2).Draw(rt, "autoCreate") > 0
 		adv := c24Advertised(w.h)
 		n := rapid.IntRange(2, 6).Draw(rt, "n")
-		gen := c24ReqGen(w, adv)
+		gen := c24ReqGen(w, cfg, adv)
 		for i := 0; i < n; i++ {
 			r := gen.Draw(rt, "req")
 			fail, tier, nt := c24Exec(w, cfg, r, st, known)
